@@ -161,6 +161,7 @@ class ArffLineReader(Filter[str, Sequence[str]]):
         self._quotes         = '"'+"'"
         self._dialect        = dict(skipinitialspace=True,escapechar="\\",doublequote=False)
         self._quotechar      = None
+        self._unescape       = re.compile(r'\\(.)') #a backslash escapes the character after it
 
         if self._is_dense:
             self._set_filter(self._dense)
@@ -262,10 +263,10 @@ class ArffLineReader(Filter[str, Sequence[str]]):
             if item[0] in self._quotes:
                 possible_quotechar = item[0]
                 while item.rstrip()[-1] != possible_quotechar or item.rstrip()[-2] == "\\":
-                    item += "," + d_line.popleft()
+                    item += self._fallback_delim + d_line.popleft()
                 item = item.strip()[1:-1]
 
-            parsed.append(item.replace('\\',''))
+            parsed.append(self._unescape.sub(r'\1',item))
 
         if len(parsed) != self._n_columns:
             raise CobaException(f"We were unable to parse a line in a way that matched the expected attributes.")
